@@ -18,6 +18,11 @@ AREAS = {
     'R': 'csep/core/forecasts.py, csep/core/catalogs.py (persistence: dict/json/ascii/dataframe) and csep/core/repositories.py',
     'S': 'csep/core/poisson_evaluations.py, csep/core/binomial_evaluations.py and csep/core/brier_evaluations.py',
     'T': 'csep/core/catalog_evaluations.py, csep/models.py, csep/__init__.py and csep/core/forecasts.py (CatalogForecast)',
+    'U': 'csep/utils/calc.py, csep/utils/stats.py and csep/core/regions.py (binning kernels and the regions that use them)',
+    'V': 'csep/core/catalogs.py (all of it: construction, accessors, filtering, gridding, persistence)',
+    'W': 'csep/core/forecasts.py and csep/utils/readers.py (gridded and catalog forecasts, forecast file loaders, catalog readers)',
+    'X': 'csep/core/poisson_evaluations.py, csep/core/binomial_evaluations.py, csep/core/brier_evaluations.py and csep/utils/stats.py',
+    'Y': 'csep/core/catalog_evaluations.py, csep/utils/time_utils.py, csep/models.py, csep/core/repositories.py and csep/__init__.py',
     'J': 'csep/core/poisson_evaluations.py, csep/core/binomial_evaluations.py, csep/core/brier_evaluations.py, csep/core/catalog_evaluations.py and csep/models.py (test kernels, simulation loops, result construction)',
 }
 print(f'''You are working in a scratch git worktree of the pyCSEP repository at {wt} (a detached checkout). Work ONLY inside {wt}: do not touch /repo, /verif or any other directory, do NOT use `git stash`, never commit anything.
